@@ -130,6 +130,7 @@ def run(repo, R):
     def mk():
         E = Elem(scr, {ptol: eps}, rule="CUT",
                  attr_symbols={f"{p1}.exps": ea, f"{p2}.exps": eb, f"{p1}.coord": A, f"{p2}.coord": B})
+        E.repo = repo
         return E
 
     Minf = sp.Function("Min_over")
@@ -409,5 +410,7 @@ def screen_exprs(repo):
     ea, eb = sp.symbols("exps_one exps_two", positive=True)
 
     def mk():
-        return Elem(scr, {ptol: eps}, rule="CUT", attr_symbols={f"{p1}.exps": ea, f"{p2}.exps": eb, f"{p1}.coord": A, f"{p2}.coord": B})
+        E_ = Elem(scr, {ptol: eps}, rule="CUT", attr_symbols={f"{p1}.exps": ea, f"{p2}.exps": eb, f"{p1}.coord": A, f"{p2}.coord": B})
+        E_.repo = repo
+        return E_
     return eval_through_defs(mk(), D, lhs), eval_through_defs(mk(), D, rhs), op, (ea, eb, A, B)
